@@ -61,12 +61,78 @@ func litFact(l *ast.BasicLit) (string, bool) {
 	return "", false
 }
 
+// factsOf: literal/operator facts of one function body, followed through calls of unexported functions of the same package
+// that are not themselves targets (so that extracting a helper out of a listed function does not change its facts)
+func factsOf(fn *ast.FuncDecl, short string, decls map[string]*ast.FuncDecl, want map[string]bool, seen map[string]bool) []string {
+	var fs []string
+	skip := map[*ast.BasicLit]bool{} // base / bit-size arguments of strconv calls are formatting, not arithmetic
+	var callees []string
+	ast.Inspect(fn.Body, func(n ast.Node) bool {
+		if c, ok := n.(*ast.CallExpr); ok {
+			switch f := c.Fun.(type) {
+			case *ast.SelectorExpr:
+				if id, ok := f.X.(*ast.Ident); ok && id.Name == "strconv" {
+					for _, a := range c.Args {
+						if l, ok := a.(*ast.BasicLit); ok {
+							skip[l] = true
+						}
+					}
+				}
+			case *ast.Ident:
+				if !ast.IsExported(f.Name) {
+					callees = append(callees, short+"."+f.Name)
+				}
+			}
+		}
+		return true
+	})
+	ast.Inspect(fn.Body, func(n ast.Node) bool {
+		switch n := n.(type) {
+		case *ast.BasicLit:
+			if skip[n] {
+				return true
+			}
+			if s, ok := litFact(n); ok {
+				fs = append(fs, s)
+			}
+		case *ast.BinaryExpr:
+			switch n.Op {
+			case token.LSS, token.GTR, token.LEQ, token.GEQ, token.EQL, token.NEQ, token.LAND, token.LOR:
+				fs = append(fs, "op:"+n.Op.String())
+			}
+		case *ast.UnaryExpr:
+			if n.Op == token.NOT {
+				fs = append(fs, "op:!")
+			}
+		}
+		return true
+	})
+	for _, c := range callees {
+		if d, ok := decls[c]; ok && !want[c] && !seen[c] && d.Body != nil {
+			seen[c] = true
+			fs = append(fs, factsOf(d, short, decls, want, seen)...)
+		}
+	}
+	return fs
+}
+
 func genFacts(pkgs []*pkgInfo, out string) {
 	var consts []string
 	facts := map[string][]string{}
 	want := map[string]bool{}
 	for _, t := range factTargets {
 		want[t] = true
+	}
+	decls := map[string]*ast.FuncDecl{}
+	for _, p := range pkgs {
+		short := filepath.Base(p.name)
+		for _, f := range p.files {
+			for _, d := range f.Decls {
+				if fd, ok := d.(*ast.FuncDecl); ok {
+					decls[short+"."+recvName(fd)+fd.Name.Name] = fd
+				}
+			}
+		}
 	}
 	for _, p := range pkgs {
 		short := filepath.Base(p.name)
@@ -96,43 +162,7 @@ func genFacts(pkgs []*pkgInfo, out string) {
 					if !want[name] || d.Body == nil {
 						continue
 					}
-					var fs []string
-					skip := map[*ast.BasicLit]bool{} // base / bit-size arguments of strconv calls are formatting, not arithmetic
-					ast.Inspect(d.Body, func(n ast.Node) bool {
-						if c, ok := n.(*ast.CallExpr); ok {
-							if se, ok := c.Fun.(*ast.SelectorExpr); ok {
-								if id, ok := se.X.(*ast.Ident); ok && id.Name == "strconv" {
-									for _, a := range c.Args {
-										if l, ok := a.(*ast.BasicLit); ok {
-											skip[l] = true
-										}
-									}
-								}
-							}
-						}
-						return true
-					})
-					ast.Inspect(d.Body, func(n ast.Node) bool {
-						switch n := n.(type) {
-						case *ast.BasicLit:
-							if skip[n] {
-								return true
-							}
-							if s, ok := litFact(n); ok {
-								fs = append(fs, s)
-							}
-						case *ast.BinaryExpr:
-							switch n.Op {
-							case token.LSS, token.GTR, token.LEQ, token.GEQ, token.EQL, token.NEQ, token.LAND, token.LOR:
-								fs = append(fs, "op:"+n.Op.String())
-							}
-						case *ast.UnaryExpr:
-							if n.Op == token.NOT {
-								fs = append(fs, "op:!")
-							}
-						}
-						return true
-					})
+					fs := factsOf(d, short, decls, want, map[string]bool{name: true})
 					sort.Strings(fs)
 					// literals as a set (hoisting a repeated sub-expression must not matter), operators as a multiset
 					var ded []string
